@@ -18,6 +18,8 @@ CHECKS = {
          "Lean 4 proof (invariant over the breaker fold, EqvGen) + model/implementation correspondence on breaker graphs and status series (exhaustive on <=4 switchboards in the thorough tier)"),
  "C03": ("Theorems over the same model as C01: every running equal-sharing source and balancing storage/PTI unit of a bus has output/rating equal to the bus load fraction (one fraction per bus), a running fixed-share source delivers share x rating exactly, a stopped source or stopped balancing unit is at zero, a given-power unit keeps its power, and any common fraction for which the bus balances equals the model's (uniqueness, buses with capacity). Correspondence shared with C01.",
          "Lean 4 proof (case analysis + field arithmetic) + model/implementation correspondence shared with C01"),
+ "C04": ("Theorems over the per-step model of ShaftLine.do_power_balance for arbitrary engine lists, loads and optional PTI/PTO: engines + PTI/PTO shaft power = loads whenever running engines exist where engine power is needed (either sign of PTI/PTO power), running engines at one common fraction, stopped engines at zero, full-PTI: PTI carries the whole load and every engine delivers zero, lines independent, status after the call, and the exact imbalance when no engine is available. Correspondence on random mechanical plants incl. geared and dual-fuel engines.",
+         "Lean 4 proof (case analysis on full-PTI / available power + arithmetic) + model/implementation correspondence on random shaft-line plants"),
  "C15": ("Theorems over the model of min_load_table_dict + PmsLoadTable.on_pattern for every list of positive ratings (any length >= 1), every positive fraction and every load: sufficient (strictly above the load whenever some set is), all-on otherwise, minimal among non-empty sets, monotone, non-empty, loading <= fraction after an equal-sharing balance; and for the equal-size rule of feems.runsimulation (ceil): non-empty, sufficient, minimal, monotone. Proofs use only 'sorted + permutation of all patterns'. Correspondence compares table lookups exactly (integer ratings x dyadic fractions make double thresholds exact) incl. every threshold, ties, negative loads and loads above capacity; the MachineryCalculation front end is exercised by C16/C12.",
          "Lean 4 proof (sortedness + permutation argument over the pattern table) + model/implementation correspondence at and around every switching threshold"),
  "C17": ("Theorems over the storage model: energy = interval-weighted sum of terminal power x charging efficiency / discharging efficiency after converter loss, SoC formula (battery kWh, supercapacitor Wh), accumulated series starts at 0, has n+1 entries and ends at the total, stored energy never exceeds terminal energy for any series (so equal charge and discharge never raise the SoC), closed form for one charge/discharge. The converter is an abstract function constrained only by 'never creates energy'; in the correspondence its per-sample value is an oracle read from the real converter.",
